@@ -16,6 +16,7 @@ type fwdModes struct {
 	DECCKM, DECKPAM, Paste   bool
 	M1000, M1002, M1003, SGR bool
 	AltScroll                bool
+	Primary                  bool // the child switched back to the primary screen
 }
 
 func (m fwdModes) String() string {
@@ -23,7 +24,7 @@ func (m fwdModes) String() string {
 	for _, p := range []struct {
 		n string
 		v bool
-	}{{"DECCKM", m.DECCKM}, {"DECKPAM", m.DECKPAM}, {"paste(2004)", m.Paste}, {"1000", m.M1000}, {"1002", m.M1002}, {"1003", m.M1003}, {"SGR(1006)", m.SGR}, {"alt-scroll(1007)", m.AltScroll}} {
+	}{{"DECCKM", m.DECCKM}, {"DECKPAM", m.DECKPAM}, {"paste(2004)", m.Paste}, {"1000", m.M1000}, {"1002", m.M1002}, {"1003", m.M1003}, {"SGR(1006)", m.SGR}, {"alt-scroll(1007)", m.AltScroll}, {"primary-screen", m.Primary}} {
 		if p.v {
 			on = append(on, p.n)
 		}
@@ -145,6 +146,11 @@ func fwdUniverse() []fwdItem {
 			key(string(c), vaxis.Key{Keycode: c, Modifiers: vaxis.ModCtrl | vaxis.ModAlt})
 		}
 	}
+	// Ctrl with the punctuation keys of the C0 range: ^\ ^] ^^ ^_ (Ctrl+[ is
+	// the Escape key itself and Ctrl+@ / Ctrl+Space are NUL: left out)
+	for _, c := range "\\]^_" {
+		key(string(c), vaxis.Key{Keycode: c, Modifiers: vaxis.ModCtrl})
+	}
 	// digits and punctuation: plain, Alt, and Shift through the shifted character
 	for _, c := range "0123456789-=[];',./`\\" {
 		key(string(c), vaxis.Key{Keycode: c, Text: string(c)})
@@ -188,6 +194,7 @@ func (w *nestedWorld) build13(t *simrt.Tape, spec RunSpec) {
 	}
 	w.modes = fwdModes{DECCKM: bits&1 != 0, DECKPAM: bits&2 != 0, Paste: bits&4 != 0, M1000: bits&8 != 0, M1002: bits&16 != 0, M1003: bits&32 != 0, SGR: bits&64 != 0}
 	w.modes.AltScroll = t.Draw(2) == 0
+	w.modes.Primary = t.Draw(3) == 0
 	if w.rows < 2 {
 		w.rows = 2
 	}
@@ -256,11 +263,16 @@ func (w *nestedWorld) run13() {
 	} else {
 		b.WriteString("\x1b>")
 	}
+	if m.Primary {
+		// leaving the alternate screen switches alternate scroll off in
+		// some emulators: select the modes afterwards
+		b.WriteString("\x1b[?1049l")
+	}
 	b.WriteString(sr(m.Paste, 2004) + sr(m.M1000, 1000) + sr(m.M1002, 1002) + sr(m.M1003, 1003) + sr(m.SGR, 1006) + sr(m.AltScroll, 1007))
 	w.pty.feed([]byte(b.String()))
 	w.settle()
 	snap := w.vt.SimSnapshot()
-	got := fwdModes{DECCKM: snap.Modes["decckm"], DECKPAM: snap.Modes["deckpam"], Paste: snap.Modes["paste"], M1000: snap.Modes["mouseButtons"], M1002: snap.Modes["mouseDrag"], M1003: snap.Modes["mouseMotion"], SGR: snap.Modes["mouseSGR"], AltScroll: m.AltScroll}
+	got := fwdModes{DECCKM: snap.Modes["decckm"], DECKPAM: snap.Modes["deckpam"], Paste: snap.Modes["paste"], M1000: snap.Modes["mouseButtons"], M1002: snap.Modes["mouseDrag"], M1003: snap.Modes["mouseMotion"], SGR: snap.Modes["mouseSGR"], AltScroll: m.AltScroll, Primary: !snap.Modes["smcup"]}
 	if got != m {
 		w.res.Violate("mode-not-taken", "term.Model", "the child selected modes [%s]; the widget holds [%s]", m, got)
 		return
@@ -416,8 +428,9 @@ func (w *nestedWorld) judge13(i int, it fwdItem, raw string, evs []vaxis.Event) 
 			want = any
 		}
 		if !want {
-			if wheel && !any && m.AltScroll {
-				// alternate-scroll mode (1007) turns the wheel into arrow keys: a mode of its own
+			if wheel && !any && m.AltScroll && !m.Primary {
+				// alternate-scroll mode (1007) turns the wheel into arrow
+				// keys on the alternate screen: a mode of its own
 				return
 			}
 			nothing("the child has not enabled this kind of mouse report")
